@@ -17,7 +17,7 @@ import (
 func init() {
 	register(&Prop{
 		ID: "C14", Level: "fault_enumeration",
-		Rule: "one case = a generated history of 1-7 calls on the Context's ResponseWriter from {WriteHeader (final, informational 1xx, 101, repeated), Write, WriteString, ReadFrom, FlushError, Push, SetReadDeadline, SetWriteDeadline, EnableFullDuplex, Hijack, Context.String/Blob/Stream/Redirect} executed by a real route handler behind ServeHTTP (the request carries a drawn Content-Type of its own or none) over a simulated connection whose capability set is drawn from {ReaderFrom, Flusher|FlushError, Hijacker+Pusher+deadlines+full duplex}; for each history the byte position at which the connection starts failing is enumerated over every byte boundary (and no failure), and the failure position of the ReadFrom/Stream source likewise; after every call Status/Size/Written are compared with the connection's own log (first final status received, bytes accepted, final header or byte received), return values with the bytes accepted during the call, and the whole run is repeated with ReaderFrom toggled (answers must not depend on the fast path); after every history a plain request is served from the recycled context and must start clean and reach the connection (201, two bytes). Finally 2-3 tasks stream distinct bytes (Context.Stream / ReadFrom from plain chunked readers) into connections that yield when a write arrives: every connection receives exactly its own bytes in order. Connection invariants: at most one final header, none after body bytes, bytes in order. Non-trivial: the history wrote body bytes and at least one enumerated fault fired inside it; distinct = hash of (history, capabilities).",
+		Rule: "one case = a generated history of 1-7 calls on the Context's ResponseWriter from {WriteHeader (final, informational 1xx, 101, repeated), Write, WriteString, ReadFrom, FlushError, Push, SetReadDeadline, SetWriteDeadline, EnableFullDuplex, Hijack, Context.String/Blob/Stream/Redirect} executed by a real route handler behind ServeHTTP (the request carries a drawn Content-Type of its own or none) over a simulated connection whose capability set is drawn from {ReaderFrom, Flusher, FlushError (alone or next to Flusher; failing in one run in three), Hijacker+Pusher+deadlines+full duplex}; for each history the byte position at which the connection starts failing is enumerated over every byte boundary (and no failure), and the failure position of the ReadFrom/Stream source likewise; after every call Status/Size/Written are compared with the connection's own log (first final status received, bytes accepted, final header or byte received), return values with the bytes accepted during the call, and the whole run is repeated with ReaderFrom toggled (answers must not depend on the fast path); after every history a plain request is served from the recycled context and must start clean and reach the connection (201, two bytes). Finally 2-3 tasks stream distinct bytes (Context.Stream / ReadFrom from plain chunked readers) into connections that yield when a write arrives: every connection receives exactly its own bytes in order. Connection invariants: at most one final header, none after body bytes, bytes in order. Non-trivial: the history wrote body bytes and at least one enumerated fault fired inside it; distinct = hash of (history, capabilities).",
 		Run:  runC14, Quick: 12000, Thorough: 2000000,
 		Real:   []string{"recorder ResponseWriter (response_writer.go)", "Context helpers String/Blob/Stream/Redirect", "ServeHTTP dispatch and context pooling"},
 		Stub:   []string{"net/http connection: simulated connection with injected short writes and errors", "io.Reader sources with injected failures"},
@@ -110,10 +110,17 @@ type triple struct {
 	Written bool
 }
 
+// flushFails is the per-run flush fault (set by runC14 before the enumeration starts; one worker process runs one case
+// at a time).
+var flushFails bool
+
 // runWHistory executes the history once. It returns the getter triples after each call and the first discrepancy.
 func runWHistory(w *world.World, steps []wStep, caps world.Caps, reqCT string, connFail int, srcFail int, fired *int, zeroAccepted *bool) ([]triple, string) {
 	conn := world.NewConn()
 	conn.FailAfter = connFail
+	if flushFails {
+		conn.FlushErr = world.ErrInjected
+	}
 	var triples []triple
 	var fail string
 	handler := func(c fox.Context, _ *world.Hit) {
@@ -197,7 +204,12 @@ func runWHistory(w *world.World, steps []wStep, caps world.Caps, reqCT string, c
 				}
 			case "flush":
 				err := wr.FlushError()
-				if caps.Flusher || caps.FlushError {
+				if caps.FlushError && conn.FlushErr != nil {
+					// the connection's FlushError fails: the failure must come back, whatever else the connection offers
+					if !errors.Is(err, conn.FlushErr) {
+						fail = fmt.Sprintf("%s: the connection's FlushError failed with %v, the recorder returned %v", name, conn.FlushErr, err)
+					}
+				} else if caps.Flusher || caps.FlushError {
 					if err != nil {
 						fail = fmt.Sprintf("%s: flush is offered by the connection but returned %v", name, err)
 					} else if !hasEvent(conn, evBefore, "flush", "flusherror") {
@@ -346,6 +358,7 @@ func runC14(src sim.Source, o Opts) *Result {
 	steps := genWSteps(src)
 	caps := world.NormCaps(world.Caps{ReaderFrom: sim.Bool(src, "rf"), Flusher: sim.Bool(src, "fl"), FlushError: sim.Bool(src, "fe"), Hijacker: sim.Bool(src, "group")})
 	reqCT := sim.Pick(src, "reqct", []string{"", "", "application/json", "text/html; charset=utf-8"})
+	flushFails = src.Intn("flushfails", 3) == 0 // fault: the connection's FlushError reports a failure
 	total := 0
 	srcLen := -1
 	for _, s := range steps {
@@ -361,6 +374,7 @@ func runC14(src sim.Source, o Opts) *Result {
 	res.Case["history"] = desc
 	res.Case["capabilities"] = fmt.Sprintf("%+v", caps)
 	res.Case["request_content_type"] = reqCT
+	res.Case["flush_fails"] = flushFails
 	fired := 0
 	wroteBody := total > 0
 	// enumerate the connection's failure position over every byte boundary, and the source's
